@@ -61,7 +61,12 @@ func UpdateMinDistance(x, a, b Point, minDist s1.ChordAngle) (s1.ChordAngle, boo
 // Otherwise it returns false. The case A == B is handled correctly.
 func UpdateMaxDistance(x, a, b Point, maxDist s1.ChordAngle) (s1.ChordAngle, bool) {
 	dist := maxChordAngle(ChordAngleBetweenPoints(x, a), ChordAngleBetweenPoints(x, b))
-	if dist > s1.RightChordAngle {
+	// The maximum can only lie in the interior of the edge when it exceeds 90
+	// degrees. The endpoint distances are computed with some error, so the test
+	// allows for it: taking the branch more often than necessary is harmless
+	// (max distance from x = 180 degrees - min distance from -x always holds),
+	// skipping it when the true maximum exceeds 90 degrees is not.
+	if dist.Expanded(dist.MaxPointError()) > s1.RightChordAngle {
 		dist, _ = updateMinDistance(Point{x.Mul(-1)}, a, b, dist, true)
 		dist = s1.StraightChordAngle - dist
 	}
